@@ -78,6 +78,14 @@ def gen(ctx, deep):
                 jobs.append((cfg, [("setstore", {"p": P, "g": bad_g, "g2": G2}), ("load", None)] + after))
         for k in (0, 1, 2, 3):
             jobs.append((cfg, [("setstore", {"p": P, "g": G, "g2": G2}), ("load", k), ("add", "g", newg[0])]))
+        # the other call form (rule as one list argument) and the async twins of the single calls
+        singles = [o for o in ops if o[0] in ("add", "remove")]
+        for is_async, listform in ((False, True), (True, True), (True, False)):
+            cfgl = ec.Config(shape, adapter=True, watcher=None, initial=inits[1], is_async=is_async)
+            cfgl.listform = listform
+            for a in singles:
+                jobs.append((cfgl, [a]))
+                jobs.append((cfgl, [a, rng.choice(singles)]))
         n = 1000 if not deep else 8000
         ops_r = ops + [("setrm",)]
         for _ in range(n):
@@ -86,11 +94,91 @@ def gen(ctx, deep):
     return jobs
 
 
+def _filtered_reload_case(args):
+    """Enforcer + FilteredFileAdapter: full load, a filtered load that succeeds or fails (invalid filter object / file
+    unreachable), then management calls; after every step all queries are compared with a freshly constructed enforcer
+    holding the current policy"""
+    import os
+    import shutil
+    import tempfile
+
+    shape, script = args
+    casbin = common.use_repo()
+    from casbin.persist.adapters import FilteredFileAdapter
+    from casbin.persist.adapters.filtered_file_adapter import Filter
+
+    P, G, G2, R = ec.universe(shape)
+    d = tempfile.mkdtemp(prefix="c04f_")
+    out = []
+    try:
+        path = os.path.join(d, "policy.csv")
+        with open(path, "w") as f:
+            f.write("\n".join(", ".join(["p"] + r) for r in P) + "\n" + "\n".join(", ".join(["g"] + r) for r in G) + "\n")
+        e = casbin.Enforcer(casbin.Enforcer.new_model(text=ec.TEXT[shape]), FilteredFileAdapter(path))
+        e.enable_auto_save(False)
+        cfg = ec.Config(shape, adapter=False)
+        qs = ec.query_set(cfg)
+        for op in script:
+            try:
+                if op[0] == "load":
+                    e.load_policy()
+                elif op[0] == "loadf":
+                    flt = Filter()
+                    flt.P, flt.G = list(op[1]), list(op[2])
+                    e.load_filtered_policy(flt)
+                elif op[0] == "loadf-badfilter":
+                    e.load_filtered_policy(object())
+                elif op[0] == "loadf-gone":
+                    os.replace(path, path + ".away")
+                    try:
+                        flt = Filter()
+                        flt.P, flt.G = [P[0][0]], []
+                        e.load_filtered_policy(flt)
+                    finally:
+                        os.replace(path + ".away", path)
+                else:
+                    ec.impl_call(e, op, False)
+                ret = "ok"
+            except Exception as ex:  # noqa
+                ret = "!" + type(ex).__name__
+            pol = {"p": [list(r) for r in e.get_policy()], "g": [list(r) for r in e.get_grouping_policy()], "g2": []}
+            fresh = casbin.Enforcer(casbin.Enforcer.new_model(text=ec.TEXT[shape]), ec.make_adapter(casbin, pol))
+            out.append((ret, [ec.q_impl(e, q) for q in qs], [ec.q_impl(fresh, q) for q in qs]))
+        return out
+    finally:
+        shutil.rmtree(d, ignore_errors=True)
+
+
+def filtered_reload_stream(ctx, res):
+    jobs = []
+    for shape in ("rbac", "dom"):
+        P, G, G2, R = ec.universe(shape)
+        tail = [("remove", "g", G[0]), ("add", "g", G[0])]
+        for mid in (("loadf-badfilter",), ("loadf-gone",), ("loadf", [P[0][0]], []), ("loadf", [], [G[0][0]])):
+            jobs.append((shape, [("load",), mid] + tail))
+            jobs.append((shape, [("load",), ("remove", "g", G[1]), mid] + tail))
+    cfgs = {}
+    for (shape, script), out in zip(jobs, [_filtered_reload_case(j) for j in jobs]):
+        qs = cfgs.setdefault(shape, ec.query_set(ec.Config(shape, adapter=False)))
+        res.nontrivial.add(hash(("filtered-reload", shape, repr(script))))
+        for i, (ret, got, fresh) in enumerate(out):
+            res.evaluations += 1
+            res.count("filtered-reload:" + script[i][0])
+            bad = [(q, a, f) for q, a, f in zip(qs, got, fresh) if a != f]
+            if bad:
+                q, a, f = bad[0]
+                res.violation({"signature": f"C04:{shape}:filtered-reload:{script[i][0]}", "stream": "filtered-reload", "shape": shape, "script": [list(o) for o in script[: i + 1]],
+                               "what": f"{shape} model with FilteredFileAdapter: after {[list(o) for o in script[: i + 1]]} (last result {ret}) the query {q} answers {a}, a freshly constructed enforcer holding the same policy answers {f}",
+                               "expected": f, "observed": a})
+                break
+
+
 def run(ctx):
     res = common.Result()
     stages = [False] if not ctx["deep"] else ([True] if ctx["proof_ok"] else [False, True])
     for deep in stages:
         ec.run_configs(res, gen(ctx, deep), judge)
+        filtered_reload_stream(ctx, res)
         if res.spec_violations:
             break
     res.rule = (
@@ -105,9 +193,14 @@ def run(ctx):
 
 
 def replay(obj):
+    if obj.get("stream") == "filtered-reload":
+        script = [tuple(o) for o in obj["script"]]
+        ret, got, fresh = _filtered_reload_case((obj["shape"], script))[-1]
+        return got != fresh
     case = obj["case"]
     c = case["config"]
     cfg = ec.Config(c["shape"], adapter=c["adapter"], watcher=c["watcher"], initial=c["initial"], is_async=c.get("async", False))
+    cfg.listform = c.get("listform", False)
     hist = [tuple(tuple(x) if False else x for x in o) for o in case["history"]]
     hist = [tuple(o) for o in hist]
     q = tuple(tuple(x) if isinstance(x, list) else x for x in obj["query"]) if "query" in obj else None
